@@ -165,6 +165,15 @@ KF_C03_5_Edge(X, e) ==
                                /\ cb.units[j].k = "call" /\ q.off <= cb.units[j].o /\ cb.units[j].o < q.off + q.len
                                /\ \E tb \in Range(AllBlocks(X.t.pre)) :
                                      cb.units[j].tg \in Range(tb.ss) /\ x.fn[1] \in Range(tb.fn)
+            \* another request of the batch deletes / replaces a `ret` of the function the patch ret
+            \* is in: at insertion time the function has lost the return edges they are copied from
+            \/ /\ x.fn # <<>>
+               /\ \E q \in Range(X.t.reqs) :
+                     /\ q.op \in {"del", "rep"}
+                     /\ LET rb == BlockByU(X.t.pre, q.u)
+                        IN  /\ x.fn[1] \in Range(rb.fn)
+                            /\ \E j \in DOMAIN rb.units :
+                                  rb.units[j].k = "ret" /\ q.off <= rb.units[j].o /\ rb.units[j].o < q.off + q.len
 
 \* KF-C03-7: return edges do not follow a call whose target block is deleted
 \* (the call slides to the next block or goes to the proxy, the returns stay).
